@@ -1,12 +1,150 @@
-(* C16 - a joint action acts like its members applied one after another, in any order: statements only. *)
-From Coq Require Import List String Bool PrimFloat.
+(* Property C16 - a joint action acts like its members applied one after another, in any order.  Statements only;
+   proofs in Proofs/C16_*.v.
+
+   Reading guide
+     Model.Joint.apply_actions d eps objs sch cur calls allow   multi_agent.common.apply_actions(domain, cur, calls,
+        allow, objects): nop entries dropped; one member -> Operator.apply(cur, allow); otherwise applicability of
+        every member is tested in cur and the members are applied one after the other to an accumulated copy.
+        [sch]: for the i-th member, the order in which its apply() visits its effect collections - any schedule.
+     Model.Plan.call_applicable   Operator(...).is_applicable(state), the library's own test (C02: = holds).
+     Model.Plan.apply_call .. true ..   Operator(...).apply(state, allow_inapplicable_actions=True) (C03: = successor).
+     Spec.Joint: member = ground action; non_interfering (syntactic footprints: neither changes a fact the other reads,
+        no add/delete conflict, no fluent written by one and read or written by the other); seq_apply = fold of the
+        PDDL successor; st_equiv = the same set of facts and the same map of fluents (values Leibniz-equal).
+   C16_any_order is pure PDDL (no model); C16_sequential / C16_refuse / C16_nops / C16_export are about the model
+   alone; C16_joint combines them: its premise [seq_refines] is the statement of C03 at the states visited. *)
+From Coq Require Import List String Bool PrimFloat Permutation.
 From Verif Require Import Base.Result Base.PyDict Model.Domain Model.Exec Model.Plan Model.Joint Spec.Pddl Spec.Joint
-  Proofs.C16_Joint.
+  Proofs.C04_Thread Proofs.C16_Commute Proofs.C16_Joint Proofs.C16_Main Proofs.C16_Examples.
 Import ListNotations.
 
+(* ---------- PDDL level: order does not matter for non-interfering members ---------- *)
+(* two non-interfering members commute ... *)
+Theorem C16_commute : forall tt objs eps a b s,
+  non_interfering tt objs a b = true ->
+  st_equiv (m_step tt objs eps (m_step tt objs eps s a) b) (m_step tt objs eps (m_step tt objs eps s b) a).
+Proof. exact step_commute. Qed.
+
+(* ... hence EVERY permutation of pairwise non-interfering members gives the same state (induction on the
+   permutation, any number of members) *)
+Theorem C16_any_order : forall tt objs eps ms ms' s,
+  pairwise_non_interfering tt objs ms = true -> Permutation ms ms' ->
+  st_equiv (seq_apply tt objs eps s ms) (seq_apply tt objs eps s ms').
+Proof. exact seq_apply_perm. Qed.
+
+(* a member applicable in the current state is still applicable when its turn comes, whatever members that do not
+   disturb it were applied before *)
+Theorem C16_stays_applicable : forall tt objs eps ms s m,
+  Forall (fun a => undisturbed_by tt objs a m = true) ms ->
+  m_applicable tt objs eps (seq_apply tt objs eps s ms) m = m_applicable tt objs eps s m.
+Proof. exact applicable_through. Qed.
+
+(* ---------- the model of apply_actions ---------- *)
 (* nop entries change nothing *)
 Theorem C16_nops : forall d eps objs sch cur calls allow,
   apply_actions d eps objs sch cur calls allow =
   apply_actions d eps objs sch cur (filter (fun c => negb (is_nop c)) calls) allow.
 Proof. exact apply_actions_nops. Qed.
+
+(* all non-nop members applicable in the current state: the joint action is the members applied one after the other in
+   list order, each to the state its predecessor returned (for both values of the allow switch) *)
+Theorem C16_sequential : forall d eps objs sch cur calls allow,
+  Forall (fun c => call_applicable d eps objs c (ms_st cur) = Ok true) (filter (fun c => negb (is_nop c)) calls) ->
+  apply_actions d eps objs sch cur calls allow =
+  (do s' <- seq_members d eps objs sch (ms_st cur) (number (filter (fun c => negb (is_nop c)) calls));
+   Ok {| ms_init := false; ms_st := s' |}).
+Proof. exact apply_actions_sequential. Qed.
+
+(* some member inapplicable in the current state, inapplicable actions not allowed: ValueError - at whatever position
+   the member stands ([before]: the applicable members in front of it, whose application raised nothing) *)
+Theorem C16_refuse : forall d eps objs sch cur calls before c after s1,
+  filter (fun c => negb (is_nop c)) calls = before ++ c :: after ->
+  Forall (fun c => call_applicable d eps objs c (ms_st cur) = Ok true) before ->
+  seq_members d eps objs sch (ms_st cur) (number_from 0 before) = Ok s1 ->
+  call_applicable d eps objs c (ms_st cur) = Ok false ->
+  apply_actions d eps objs sch cur calls false = Err EValue.
+Proof. exact apply_actions_refuses. Qed.
+
+(* ---------- THE PROPERTY ---------- *)
+Theorem C16_joint : forall d eps objs tt sch cur calls allow ms,
+  Forall (fun c => call_applicable d eps (Some objs) c (ms_st cur) = Ok true)
+         (filter (fun c => negb (is_nop c)) calls) ->
+  pairwise_non_interfering tt objs ms = true ->
+  seq_refines d eps objs tt sch 0 (filter (fun c => negb (is_nop c)) calls) ms (ms_st cur) ->
+  exists s', apply_actions d eps (Some objs) sch cur calls allow = Ok {| ms_init := false; ms_st := s' |} /\
+             forall pi, Permutation ms pi -> st_equiv s' (seq_apply tt objs eps (ms_st cur) pi).
+Proof. exact joint_any_order. Qed.
+
+(* ---------- the exported multi-agent trajectory: one step per joint action, chained ---------- *)
+Theorem C16_export : forall d eps exporter_allow objs sch allow init lines ts,
+  parse_joint_plan d eps exporter_allow objs sch allow init lines = Ok ts ->
+  List.length ts = List.length lines /\
+  (forall t, hd_error ts = Some t -> jt_prev t = {| ms_init := true; ms_st := init |}) /\
+  (forall k t u, nth_error ts k = Some t -> nth_error ts (S k) = Some u -> jt_prev u = jt_next t) /\
+  (forall k t, nth_error ts k = Some t ->
+     exists line calls,
+       nth_error lines k = Some line /\ parse_joint_call line = Ok calls /\
+       mapM (member_text d) calls = Ok (jt_ops t) /\
+       apply_actions d eps (Some objs) (sch k) (jt_prev t) (filter (fun c => negb (is_nop c)) calls)
+                     (allow || exporter_allow) = Ok (jt_next t)).
+Proof. exact parse_joint_plan_trajectory. Qed.
+
+(* a refused (or otherwise failing) joint action aborts the export with its error: no 'unchanged state' fallback here *)
+Theorem C16_export_aborts : forall d eps exporter_allow objs sch allow init l1 line l2 ts1 k,
+  parse_joint_plan d eps exporter_allow objs sch allow init l1 = Ok ts1 ->
+  create_multi_agent_triplet d eps exporter_allow objs (sch (List.length l1)) allow
+    (end_state _ _ jt_next {| ms_init := true; ms_st := init |} ts1) line = Err k ->
+  parse_joint_plan d eps exporter_allow objs sch allow init (l1 ++ line :: l2) = Err k.
+Proof. exact parse_joint_plan_fails_at. Qed.
+
+Theorem C16_export_text : forall ts items,
+  export_joint ts = Ok items ->
+  List.length items = S (2 * List.length ts) /\
+  (forall t, hd_error ts = Some t -> hd_error items = Some (XState (jt_prev t))) /\
+  (forall k t, nth_error ts k = Some t ->
+     nth_error items (S (2 * k)) = Some (XOp (jt_ops t)) /\ nth_error items (S (S (2 * k))) = Some (XState (jt_next t))).
+Proof. exact export_joint_shape. Qed.
+
+(* ---------- the hypotheses are satisfiable; non-interference is needed ---------- *)
+(* [(move r1 l1 l2), (nop ), (move r2 l3 l4)]: non-interfering, all applicable; the joint action, the joint action of a
+   permutation with the nop elsewhere, and the spec's sequential composition in both orders are the same state *)
+Theorem C16_example :
+  pairwise_non_interfering jx_tt jx_objs [m1; m2] = true /\
+  forallb (m_applicable jx_tt jx_objs jx_eps jx_state) [m1; m2] = true /\
+  let r := apply_actions jx_dom jx_eps (Some jx_objs) id_schedule jx_cur [mv "r1" "l1" "l2"; nop; mv "r2" "l3" "l4"] false in
+  let r' := apply_actions jx_dom jx_eps (Some jx_objs) id_schedule jx_cur [mv "r2" "l3" "l4"; mv "r1" "l1" "l2"; nop] false in
+  is_ok r = true /\ is_ok r' = true /\
+  same_state (result_state r) (result_state r') = true /\
+  same_state (result_state r) (seq_apply jx_tt jx_objs jx_eps jx_state [m1; m2]) = true /\
+  same_state (result_state r) (seq_apply jx_tt jx_objs jx_eps jx_state [m2; m1]) = true.
+Proof. exact jx_example_lemma. Qed.
+
+Theorem C16_example_refused :
+  apply_actions jx_dom jx_eps (Some jx_objs) id_schedule jx_cur [mv "r1" "l1" "l2"; nop; mv "r2" "l3" "l1"] false = Err EValue /\
+  apply_actions jx_dom jx_eps (Some jx_objs) id_schedule jx_cur [mv "r2" "l3" "l1"; mv "r1" "l1" "l2"] false = Err EValue /\
+  is_ok (apply_actions jx_dom jx_eps (Some jx_objs) id_schedule jx_cur [mv "r1" "l1" "l2"; mv "r2" "l3" "l1"] true) = true.
+Proof. exact jx_refused. Qed.
+
+(* without non-interference the statement fails: members applicable each, but one disables the other; and an add/delete
+   conflict makes the two orders differ *)
+Theorem C16_interference_matters :
+  forallb (m_applicable jx_tt jx_objs jx_eps jx_state) [m1; m3] = true /\
+  non_interfering jx_tt jx_objs m1 m3 = false /\
+  m_applicable jx_tt jx_objs jx_eps (m_step jx_tt jx_objs jx_eps jx_state m1) m3 = false /\
+  non_interfering jx_tt jx_objs m1 m4 = false /\
+  same_state (seq_apply jx_tt jx_objs jx_eps jx_state [m1; m4]) (seq_apply jx_tt jx_objs jx_eps jx_state [m4; m1]) = false.
+Proof. exact jx_interfering. Qed.
+
+Print Assumptions C16_commute.
+Print Assumptions C16_any_order.
+Print Assumptions C16_stays_applicable.
 Print Assumptions C16_nops.
+Print Assumptions C16_sequential.
+Print Assumptions C16_refuse.
+Print Assumptions C16_joint.
+Print Assumptions C16_export.
+Print Assumptions C16_export_aborts.
+Print Assumptions C16_export_text.
+Print Assumptions C16_example.
+Print Assumptions C16_example_refused.
+Print Assumptions C16_interference_matters.
